@@ -438,11 +438,19 @@ impl IoLoop {
                     self.inner.write_to_stream(stream)?;
                 }
                 if event.readiness().is_readable() {
-                    self.inner.read_from_stream(
+                    let result = self.inner.read_from_stream(
                         stream,
                         &mut self.frame_buffer,
                         |inner, frame| state.process(inner, frame),
-                    )?;
+                    );
+                    match result {
+                        // The server is free to close the socket right after its CloseOk;
+                        // seeing EOF behind it in the same read is the expected end of a
+                        // client-initiated close, not a failure.
+                        Err(Error::UnexpectedSocketClose)
+                            if matches!(state, ConnectionState::ClientClosed) => {}
+                        other => other?,
+                    }
                 }
             }
             HEARTBEAT => self.inner.process_heartbeat_timers()?,
